@@ -27,7 +27,7 @@ RULE = ("histories (Hypothesis RuleBasedStateMachine, <= 20 / 40 steps) over doc
         "descendants), SAMI with varying P rules, WebVTT cues with starts from a small pool in "
         "any order (strict readers reject part of them), small SCC documents that are well-formed "
         "or rejected part-way (bad time code on a later line, 40-character row, one-frame cue), "
-        "corpus documents with one digit "
+        "documents cut off at any character (also inside a tag), corpus documents with one digit "
         "changed. A second read rule picks a reader object that exists already and lets it read "
         "any document of its format. ")
 ASSUMPTIONS = [
@@ -183,10 +183,27 @@ def doc_strategy():
         d = draw(st.sampled_from("0123456789"))
         return {"op": "add_doc", "fmt": fmt, "doc": text[:k] + d + text[k + 1:]}
 
+    @st.composite
+    def truncated(draw):
+        # a document cut off anywhere (inside a tag, a style block, a cue): readers reject it or
+        # read what is there - and must be none the worse for it afterwards
+        src = draw(st.one_of(sami_family(), dfxp_family(), webvtt_family(), scc_family(),
+                             st.integers(0, n - 1).map(lambda i: {"fmt": corpus_docs()[i][0], "doc": corpus_docs()[i][1]})))
+        text = src["doc"]
+        if len(text) < 4:
+            return {"op": "add_doc", "fmt": src["fmt"], "doc": text}
+        k = draw(st.integers(1, len(text) - 1))
+        if draw(st.booleans()):
+            # cut right after a '<' + some name characters, if there is one nearby
+            j = text.rfind("<", 0, k)
+            if j >= 0:
+                k = min(len(text) - 1, j + draw(st.integers(1, 12)))
+        return {"op": "add_doc", "fmt": src["fmt"], "doc": text[:k]}
+
     return st.one_of(st.integers(0, n - 1).map(lambda i: {"op": "add_doc", "corpus": i}),
                      st.integers(0, n - 1).map(lambda i: {"op": "add_doc", "corpus": i}),
                      gen_doc.map(build), dfxp_family(), dfxp_regions(), sami_family(), webvtt_family(),
-                     scc_family(), mutated_corpus())
+                     scc_family(), mutated_corpus(), truncated())
 
 
 def call_strategy(fmt):
